@@ -195,8 +195,8 @@ class DiskImageContentInjector(DiskImageWorker):
                     typeOfData=fileMode,
                 )
                 sizeInBytes = len(fileData)
-                fullBlocks, moduloBlocks = len(fileData) // 255, len(fileData) % 255
-                sizeInBlocks = fullBlocks if moduloBlocks == 0 else fullBlocks + 1
+                sizeInSectors = max(1, (sizeInBytes + 254) // 255)
+                sizeInBlocks = (sizeInSectors + 7) // 8
                 listener.onEndOfFile(
                     {
                         "status": CatalogEntryStatus.ALIVE.name,
